@@ -155,7 +155,7 @@ def required_resets(ctx, P, rid, only=None):
         cs = f.calls(cal)
         ok = any(must_before_success(f, lambda e, c=c: e == c) for c in cs)
         ctx.check(rid, ok, key(f, "call:" + cal), f.where(cs[0]) if cs else f.where(f.root), "%s no longer calls %s on every successful path" % (fname, cal))
-    if only and "decoder_start_utt" not in only:
+    if only and "decoder_start_utt" not in only and "decoder_start_utt_align_only" not in only:
         return
     # the aligner cache is emptied at the start of an utterance
     f = P.fn("decoder_start_utt", "decoder.c")
